@@ -182,6 +182,7 @@ func init() {
 		conserve.PushRules(p, r)
 		conserve.PushComplement(p, r)
 		conserve.OrderVerbatim(p, r)
+		conserve.PushIdempotent(p, r)
 		conserve.PrintParse(p, r)
 		conserve.PrintTotal(p, r)
 		conserve.ParseReject(p, r)
